@@ -23,6 +23,8 @@ from comm.platform import Platform                     # noqa: E402
 
 from sim import world as _world                        # noqa: E402
 from sim import serverworld as _sw                     # noqa: E402
+from sim import simsignal as _simsignal                # noqa: E402
+import signal as _signal                               # noqa: E402
 from sim import simfs                                  # noqa: E402
 from sim.choices import EventLog                       # noqa: E402
 from sim.clock import Clock                            # noqa: E402
@@ -80,6 +82,7 @@ def install():
         return
     _installed = True
     _world.install_seams()
+    _simsignal.install()
     _sw.install_server_seams()
     simfs.install()
     _lb_tcp.socket = SocketShim
@@ -103,6 +106,11 @@ class ProcWorld:
         self.seam_labels = []
         self.crash_at = None             # seam index at which the current process crashes
         self.crashed = []                # (proc, seam index, label)
+        self.signal_at = None            # (seam index, signal number): delivered to the main thread there
+        self.signals = []                # (proc, seam index, label, signal number, what happened)
+        self.sig_handlers = {}           # proc -> {signal number: handler} (sim/simsignal.py)
+        self.interrupt_at = None         # seam index at (or after) which the process's main thread gets
+        self.interrupted = []            # a KeyboardInterrupt (operator's Ctrl-C / SIGINT), once
         self.cur_proc = None
         dev_cls = SgxDevice if platform == "sgx" else LedgerDevice
         self.device = dev_cls(ch, self.clock, self.log, seed=seed, cfg=device_cfg)
@@ -146,6 +154,36 @@ class ProcWorld:
         self.seam_count += 1
         if self.on_seam is not None:
             self.on_seam(self, label)
+        if self.interrupt_at is not None and i >= self.interrupt_at and cur.name == proc:
+            # SIGINT: Python raises KeyboardInterrupt in the main thread between two bytecodes; handlers
+            # and finally blocks run, the process goes on living until it decides to end
+            self.interrupt_at = None
+            self.interrupted.append((proc, i, label))
+            self.log.ev("interrupt", proc, i, label)
+            raise KeyboardInterrupt()
+        if self.signal_at is not None and i >= self.signal_at[0] and cur.name == proc:
+            signum = self.signal_at[1]
+            self.signal_at = None
+            h = self.sig_handlers.get(proc, {}).get(int(signum), _signal.SIG_DFL)
+            if callable(h):
+                what = "handler"
+            elif h == _signal.SIG_IGN or (h == _signal.SIG_DFL and signum in _simsignal.IGNORE):
+                what = "ignored"
+            elif signum == _signal.SIGINT:
+                what = "KeyboardInterrupt"
+            else:
+                what = "terminated"
+            self.signals.append((proc, i, label, int(signum), what))
+            if getattr(self, "on_signal", None):
+                self.on_signal(proc, int(signum), what)
+            self.log.ev("signal", proc, i, label, int(signum), what)
+            if what == "handler":
+                h(int(signum), None)         # in the main thread, on top of what it was doing
+            elif what == "KeyboardInterrupt":
+                raise KeyboardInterrupt()
+            elif what == "terminated":
+                k.fence(proc)
+                raise SimCrash()
         if self.crash_at is not None and i == self.crash_at:
             self.crashed.append((proc, i, label))
             self.log.ev("crash", proc, i, label)
